@@ -221,6 +221,22 @@ func suiteAtom(t *testing.T, cfg cfgT) {
 		emitPatch(fresh, nil, false)
 		mgrDelete(append(append([]*ketoapi.RelationTuple{}, fresh[:120]...), setup[0]))
 		mgrDelete(fresh[:115])
+		// requests larger than any plausible internal batch, failing at the very end: a request is ONE unit however the
+		// server slices it (sizes 1001..2100 cross slices of 1000; the storage batches of 100 / 3000 are covered above)
+		for bi, nbig := range []int{1001, 2100} {
+			var ins []*ketoapi.RelationTuple
+			for k := 0; k < nbig; k++ {
+				ins = append(ins, mk(k))
+			}
+			if (round+bi)%2 == 0 {
+				ins[nbig-1] = &ketoapi.RelationTuple{Namespace: "zz", Object: "o1", Relation: "r", SubjectID: strp("u1")}
+				out.stat("fault.big_invalid_last")
+			} else {
+				ins[nbig-1] = &ketoapi.RelationTuple{Namespace: "n", Object: "o1", Relation: poisonIns, SubjectID: strp("u1")}
+				out.stat("fault.big_statement_last")
+			}
+			emitPatch(ins, nil, (round+bi)%4 >= 2)
+		}
 		// delete-by-query that hits the poison row: must fail and delete nothing
 		code, _ := rest(e.write, "DELETE", "/admin/relation-tuples?namespace=n&relation="+poisonDel, nil)
 		out.emit(fmt.Sprintf("delrest %s 1", fmtPairs([][2]string{{"namespace", "n"}, {"relation", poisonDel}})), fmt.Sprintf("%d %s", code, e.dumpDigest(pool)))
